@@ -26,6 +26,11 @@ OPS = {
     "conv.BT": ["to_table", "from_bdd"], "conv.BE": ["to_expression", "from_bdd"],
     "parse": ["py_new"], "ctor.bad": ["py_new"], "csv.from": ["from_csv_string"], "csv.filebytes": ["from_csv_file"], "csv.to0": ["to_csv"],
     "render": ["to_string_formatted"], "row": ["row"], "nodecount": ["node_count"],
+    "after.restrict": ["restrict", "is_equivalent", "is_implied_by", "inputs", "essential_inputs"],
+    "after.exists": ["existential_quantification", "is_equivalent", "is_implied_by"],
+    "after.forall": ["universal_quantification", "is_equivalent", "is_implied_by"],
+    "after.deriv": ["derivative", "is_equivalent", "is_implied_by"],
+    "after.not": ["mk_not", "is_equivalent", "is_implied_by"],
     "mk.const": ["mk_const"], "mk.literal": ["mk_literal"], "var": ["var", "vars"], "bool": ["bool"],
 }
 
@@ -75,6 +80,10 @@ def run(pid, tier, seed, ctx):
             if len(rest) > 4000:
                 continue
             buckets.setdefault(op, []).append(f"C19 {op} {rest}")
+            # observations on the *result object* of an operation (derived objects keep their history:
+            # lib-bdd's algorithms leave equal functions with different node orders)
+            if op in ("restrict", "exists", "forall", "deriv", "not"):
+                buckets.setdefault("after." + op, []).append(f"C19 after.{op} {rest}")
             # derived requests for methods no other property exercises
             if op == "nnf":
                 for o2 in ("is.literal", "is.constant", "is.not", "is.and", "is.or", "literals", "str"):
